@@ -169,7 +169,9 @@ impl<E: FieldElement> EvaluationFrameExt<E> for &EvaluationFrame<E> {
 
     #[inline(always)]
     fn bitwise_flag(&self) -> E {
-        self.s(0) * binary_not(self.s_next(1))
+        // the last row of the bitwise section is included: it closes an 8-row cycle, where the
+        // periodic column k1 turns off every constraint that involves the next row.
+        self.s(0) * binary_not(self.s(1))
     }
 
     #[inline(always)]
